@@ -19,6 +19,7 @@ containers, so duplicates occur adjacent and far apart, in every mixture of
 element kinds; uniqueItems in the four drafts against "all canonical keys
 distinct".
 """
+import collections
 import itertools
 import json
 
@@ -157,9 +158,12 @@ def plan(ctx):
         else:
             units += [("arrays", 4, i, j, 4) for i in range(len(A40)) for j in range(4)]
     units += [("shared", d, i, 4) for d in DRAFTS for i in range(4)]
+    units += [("ordered", d, i, 4) for d in DRAFTS for i in range(4)]
     return {
         "units": units,
-        "rule": ("S: one long-lived validator object per draft is handed a NEW schema object for every call "
+        "rule": ("O: every ordered pair of the 40-value sub-universe with the objects of either or both sides given "
+                 "as collections.OrderedDict (what json.load(object_pairs_hook=OrderedDict) produces), member order "
+                 "kept or reversed, const / enum / uniqueItems.  S: one long-lived validator object per draft is handed a NEW schema object for every call "
                  "(is_valid(instance, schema)), for every ordered pair of the 40-value sub-universe and the four "
                  "forms in turn, so anything remembered about a schema object that no longer exists would be "
                  "observed.  P: every ordered pair (a, b) of the universe V (JSON values of depth <= 2, width <= 2 over 16 "
@@ -613,9 +617,62 @@ def run_shared(unit, ctx):
             "outcomes": outcomes, "counters": {"violating_executions": bag.total, "shared_validator_calls": ev}}
 
 
+def as_ordered(x, reverse):
+    """The same JSON value as json.load(..., object_pairs_hook=OrderedDict) gives it (optionally with the members
+    written in the opposite order): OrderedDict's own == is order-sensitive, JSON object equality is not."""
+    if isinstance(x, dict):
+        items = [(k, as_ordered(v, reverse)) for k, v in x.items()]
+        return collections.OrderedDict(items[::-1] if reverse else items)
+    if isinstance(x, list):
+        return [as_ordered(v, reverse) for v in x]
+    return x
+
+
+def run_ordered(unit, ctx):
+    """Every ordered pair of the 40-value sub-universe with the objects of one or both sides loaded as
+    OrderedDict, member order kept or reversed; the four forms; same oracle (JSON equality of the plain values)."""
+    _, d, shard, nsh = unit
+    bag = Bag()
+    ev = nt = 0
+    outcomes = {}
+    n = len(A40)
+    variants = [("a-ordered", True, False), ("b-ordered", False, True), ("both-ordered", True, True)]
+    has_obj = [json.dumps(v).find("{") >= 0 for v in A40]
+    for ia in range(shard, n, nsh):
+        a, ka = A40[ia], KA40[ia]
+        for ib in range(n):
+            if not (has_obj[ia] or has_obj[ib]):
+                continue
+            b = A40[ib]
+            eq = ka == KA40[ib]
+            for vname, oa, ob in variants:
+                for rev in (False, True):
+                    a2 = as_ordered(a, rev) if oa else a
+                    b2 = as_ordered(b, False) if ob else b
+                    for form in (("const", "enum1", "uniqueItems") if d >= 6 else ("enum1", "uniqueItems")):
+                        S, inst = build_case(form, a2, b2)
+                        g = observe(CLS[d](S), inst)
+                        exp = (not eq) if form == "uniqueItems" else eq
+                        ev += 1
+                        nt += family(a) == family(b)
+                        oc = "ordered:%s:%s" % (form, "equal" if eq else "unequal")
+                        outcomes[oc] = outcomes.get(oc, 0) + 1
+                        if g is not exp:
+                            bag.add({"signature": "C08|OrderedDict-members|%s|%s|%s" % (form, kind_of(form, g, exp),
+                                                                                         "reversed" if rev else "same-order"),
+                                     "size": size_of(a, b),
+                                     "case": {"draft": d, "form": "ordered", "which": form, "a": a, "b": b,
+                                              "a_ordered": oa, "b_ordered": ob, "reversed": rev},
+                                     "detail": {"observed": g, "expected_valid": exp}})
+    return {"evaluations": ev, "nontrivial": nt, "violations": bag.all(), "samples": [],
+            "outcomes": outcomes, "counters": {"violating_executions": bag.total, "ordered_dict_cases": ev}}
+
+
 def run_unit(unit, ctx):
     if unit[0] == "pairs":
         return run_pairs(unit, ctx)
+    if unit[0] == "ordered":
+        return run_ordered(unit, ctx)
     if unit[0] == "shared":
         return run_shared(unit, ctx)
     return run_arrays(unit, ctx)
@@ -626,6 +683,14 @@ def replay(case, ctx):
     if case["form"] == "check_schema":
         ok = check_schema_ok(d, case["schema"])
         return {"reproduced": not ok, "check_schema_accepts": ok}
+    if case["form"] == "ordered":
+        a2 = as_ordered(case["a"], case["reversed"]) if case["a_ordered"] else case["a"]
+        b2 = as_ordered(case["b"], False) if case["b_ordered"] else case["b"]
+        S, inst = build_case(case["which"], a2, b2)
+        g = observe(CLS[d](S), inst)
+        eq = equality.jeq(case["a"], case["b"])
+        exp = (not eq) if case["which"] == "uniqueItems" else eq
+        return {"reproduced": g is not exp, "observed": g, "expected_valid": exp}
     if case["form"] == "shared-validator":
         w = CLS[d]({})
         got = None
